@@ -85,7 +85,8 @@ package metadata
 //@ extern github.com/gopher-fleece/gleece/v2/core/metadata.TypeRef.Kind
 //@ ensures result == typeRefKind(recv)
 //@ extern github.com/gopher-fleece/gleece/v2/core/metadata.TypeRef.Flatten
-//@ ensures fresh(result)
+// assumed: type references built by the type-usage visitor have non-nil children (Elem, Key, Value, TypeArgs...)
+//@ ensures forall(i, 0, len(result), result[i] != nil)
 
 //@ func TypeUsageMeta.IsIterable props C10,C14
 //@ requires t.Root != nil
@@ -97,3 +98,6 @@ package metadata
 //@ func ReceiverMeta.RetValsRange props C18,C14
 //@ ensures implies(len(v.RetVals) == 0, result.StartLine == 0 && result.EndLine == 0 && result.StartCol == 0 && result.EndCol == 0)
 //@ ensures implies(len(v.RetVals) == 1, result.StartLine == v.RetVals[0].Range.StartLine && result.EndLine == v.RetVals[0].Range.EndLine && result.StartCol == v.RetVals[0].Range.StartCol && result.EndCol == v.RetVals[0].Range.EndCol)
+
+//@ func TypeUsageMeta.IsUniverseType props C10,C14
+//@ ensures result == gast.universeType(m.Name)
